@@ -232,6 +232,50 @@ fn run<B: Base>(field: &str, ext: FieldExtension, rng: &mut Rng, cases: &mut u64
                 Ok(Err(e)) => fail(format!("the verifier rejects the honest proof of a valid execution ({e}): {ctx}")),
                 Err(_) => fail(format!("the verifier panicked on an honest proof: {ctx}")),
             }
+            // acceptance policy (C18): the proof is accepted under a minimum level exactly when its own level reaches it
+            // (both estimates), and under an option set exactly when the set contains the proof's options
+            {
+                let vf = |acc: AcceptableOptions| -> Result<(), winterfell::VerifierError> {
+                    verify::<TestAir<B>, H<B>, DefaultRandomCoin<H<B>>>(Proof::from_bytes(&bytes).unwrap(), Pub(specs.clone()), &acc)
+                };
+                let p = Proof::from_bytes(&bytes).unwrap();
+                for conjectured in [true, false] {
+                    let level = p.security_level::<H<B>>(conjectured);
+                    for min in [0, level.saturating_sub(1), level, level + 1, level + 40, u32::MAX] {
+                        *cases += 1;
+                        let acc = if conjectured { AcceptableOptions::MinConjecturedSecurity(min) } else { AcceptableOptions::MinProvenSecurity(min) };
+                        let r = vf(acc);
+                        if r.is_ok() != (level >= min) {
+                            fail(format!("minimum {} security {min}: proof of level {level} {}: {ctx}", if conjectured { "conjectured" } else { "proven" }, if r.is_ok() { "accepted" } else { "refused" }));
+                        }
+                    }
+                }
+                let o = p.options().clone();
+                let fo = o.to_fri_options();
+                let others = [
+                    ProofOptions::new(o.num_queries() + 1, o.blowup_factor(), o.grinding_factor(), o.field_extension(), fo.folding_factor(), fo.remainder_max_degree()),
+                    ProofOptions::new(o.num_queries(), o.blowup_factor() * 2, o.grinding_factor(), o.field_extension(), fo.folding_factor(), fo.remainder_max_degree()),
+                    ProofOptions::new(o.num_queries(), o.blowup_factor(), o.grinding_factor() + 1, o.field_extension(), fo.folding_factor(), fo.remainder_max_degree()),
+                    ProofOptions::new(o.num_queries(), o.blowup_factor(), o.grinding_factor(), if o.field_extension() == FieldExtension::None { FieldExtension::Quadratic } else { FieldExtension::None }, fo.folding_factor(), fo.remainder_max_degree()),
+                    ProofOptions::new(o.num_queries(), o.blowup_factor(), o.grinding_factor(), o.field_extension(), fo.folding_factor() * 2, fo.remainder_max_degree()),
+                    ProofOptions::new(o.num_queries(), o.blowup_factor(), o.grinding_factor(), o.field_extension(), fo.folding_factor(), fo.remainder_max_degree() * 2 + 1),
+                ];
+                for (k, other) in others.iter().enumerate() {
+                    *cases += 1;
+                    if other == &o {
+                        fail(format!("option set {k} compares equal to the proof's options although one parameter differs: {ctx}"));
+                    }
+                    if vf(AcceptableOptions::OptionSet(vec![other.clone()])).is_ok() {
+                        fail(format!("accepted under an option set that does not contain the proof's options (variant {k}): {ctx}"));
+                    }
+                    if vf(AcceptableOptions::OptionSet(vec![other.clone(), o.clone()])).is_err() || vf(AcceptableOptions::OptionSet(vec![o.clone(), other.clone()])).is_err() {
+                        fail(format!("refused under an option set that contains the proof's options (variant {k}): {ctx}"));
+                    }
+                }
+                if vf(AcceptableOptions::OptionSet(others.to_vec())).is_ok() || vf(AcceptableOptions::OptionSet(vec![])).is_ok() {
+                    fail(format!("accepted under an option set without the proof's options: {ctx}"));
+                }
+            }
             // the field the proof claims: every other modulus (other lengths, other content) must be refused with an
             // error before anything is derived from it - never a panic (C06), never acceptance (C18)
             {
